@@ -241,6 +241,115 @@ def verifier_model(chk, model, hscan, cases, meta, out, corder):
     return st
 
 
+B64STD = b"ABCDEFGHIJKLMNOPQRSTUVWXYZabcdefghijklmnopqrstuvwxyz0123456789+/"
+
+
+def b64enc(alpha, data):
+    import base64
+    return base64.b64encode(data).translate(bytes.maketrans(B64STD, alpha))
+
+
+def base64_part(chk, model, hscan):
+    """base64 / base64wide strings: the implementation's matches against Spec/Base64Spec.v (the three context-independent forms)"""
+    n = 60 if chk.tier == "quick" else 600
+    cases, meta = [], {}
+    for i in range(n):
+        r = chk.rng.fork()
+        text = rulegen.rand_text(r, 1, 4) if r.chance(1, 4) else rulegen.rand_text(r, 3, 14)
+        plain, wide = r.choice([(1, 0), (1, 0), (0, 1), (1, 1)])
+        alpha = B64STD
+        if r.chance(1, 3):
+            perm = list(B64STD)
+            r.shuffle(perm)
+            alpha = bytes(perm)
+        elif r.chance(1, 4):
+            alpha = B64STD[:62] + bytes([r.choice(b"-_.!*"), r.choice(b",;:#@")])
+        mods = []
+        if plain:
+            mods.append("base64" if alpha == B64STD else 'base64("%s")' % rulegen.yara_escape(alpha))
+        if wide:
+            mods.append("base64wide" if alpha == B64STD else 'base64wide("%s")' % rulegen.yara_escape(alpha))
+        src = 'rule r { strings: $a = "%s" %s condition: $a }' % (rulegen.yara_escape(text), " ".join(mods))
+        bufs = []
+        for _ in range(5):
+            pre = r.bytes(r.below(7))
+            post = r.bytes(r.below(7))
+            t = text if r.chance(4, 5) else text[:-1] + bytes([text[-1] ^ 1])
+            enc = b64enc(alpha, pre + t + post)
+            if r.chance(1, 3):
+                enc = enc.rstrip(b"=")
+            if wide and (not plain or r.chance(1, 2)):
+                enc = b"".join(bytes([c, 0]) for c in enc)
+            junk = r.bytes(r.below(5))
+            bufs.append(junk + enc + r.bytes(r.below(4)))
+        bufs.append(b64enc(alpha, text))
+        bufs.append(b64enc(alpha, b"x" + text) + b64enc(alpha, b"xy" + text + b"z"))
+        cases.append(("b%d" % i, ["newcompiler", "add " + hx(src.encode()), "getrules", "scanner 0"] + ["scan " + hx(b) for b in bufs]))
+        meta["b%d" % i] = (src, text, alpha, plain, wide, bufs)
+    out, err = vlib.run_cases(hscan, cases, timeout=3000)
+    q, order = [], []
+    for cid, _ in cases:
+        src, text, alpha, plain, wide, bufs = meta[cid]
+        for bi, b in enumerate(bufs):
+            q.append("b64 %s %s %d %d %s" % ("-" if alpha == B64STD else hx(alpha), hx(text), plain, wide, hx(b)))
+            order.append((cid, bi))
+    res, _ = vlib.run_lines(model, q, timeout=3000)
+    spec = dict(zip(order, res))
+    st = {"rules": 0, "rejected_at_compile_time": 0, "scans_compared": 0, "scans_equal": 0, "scans_with_matches": 0, "custom_alphabets": 0, "wide": 0}
+    for cid, _ in cases:
+        src, text, alpha, plain, wide, bufs = meta[cid]
+        lines = out.get(cid, [])
+        scans = [l for l in lines if l.startswith("scan msgs=")]
+        if any(l.startswith("crash") for l in lines):
+            chk.violation("crash:base64", "compiling/scanning %s crashes" % src[:160], {"rule": src, "output": lines[-4:]})
+            continue
+        if len(scans) != len(bufs):
+            adds = [l for l in lines if l.startswith("add errors=")]
+            if adds and adds[0] != "add errors=0":
+                st["rejected_at_compile_time"] += 1
+                continue
+            chk.violation("run", "base64 case did not run: %s" % lines[-3:], {"rule": src}, found_input=False)
+            continue
+        st["rules"] += 1
+        st["custom_alphabets"] += alpha != B64STD
+        st["wide"] += wide
+        for bi, b in enumerate(bufs):
+            mm = re.search(r"[MN]:default:r:([^;]*);", scans[bi])
+            impl = []
+            if mm:
+                for part in mm.group(1).split("|"):
+                    if part.startswith("$a="):
+                        impl += [tuple(int(x) for x in e.split("/")) for e in part[3:].split(",") if e]
+            impl.sort()
+            sp = {}
+            for ent in spec[(cid, bi)].split(";"):
+                if ent:
+                    o, ls = ent.split(":")
+                    sp[int(o)] = [int(x) for x in ls.split(",")]
+            st["scans_compared"] += 1
+            io = [e[0] for e in impl]
+            bad = None
+            if io != sorted(set(io)):
+                bad = "offsets not strictly ascending: %s" % io
+            elif set(io) != set(sp):
+                bad = ("missed occurrence(s) at %s " % sorted(set(sp) - set(io))[:4] if set(sp) - set(io) else "") + \
+                      ("extra match(es) at %s" % sorted(set(io) - set(sp))[:4] if set(io) - set(sp) else "")
+            else:
+                for e in impl:
+                    if e[1] not in sp[e[0]]:
+                        bad = "offset %d reported with length %d, admissible %s" % (e[0], e[1], sp[e[0]])
+                        break
+            if bad:
+                chk.violation("base64:" + ("missed" if "missed" in bad else "extra" if "extra" in bad else "length"),
+                              "%s on a %d-byte buffer: %s" % (src[:200], len(b), bad),
+                              {"rule": src, "buffer_hex": hx(b), "impl": impl, "spec": spec[(cid, bi)],
+                               "how": "h_scan: newcompiler; add <rule hex>; getrules; scanner 0; scan <buffer_hex>   model: b64 <alphabet> <string> <plain> <wide> <buffer>"})
+            else:
+                st["scans_equal"] += 1
+                st["scans_with_matches"] += bool(sp)
+    return st
+
+
 def run(chk):
     tier = chk.tier
     ok, log, st = vlib.proof_obligations(chk, PROPS)
@@ -380,8 +489,9 @@ def run(chk):
     # ---- the verifier / scan model (Model/Verify.v): certificates of scan_text_sound / scan_text_complete on every image string,
     # and the model's match list (offset, length, key) must be EQUAL to the implementation's
     vstat = verifier_model(chk, model, hscan, cases, meta, out, corder)
+    bstat = base64_part(chk, model, hscan)
     chk.note(evaluations=total, distinct_nontrivial=len(nontriv), traces_validated_against_impl=agree, input_distribution=dist,
-             verifier_model=vstat,
+             verifier_model=vstat, base64=bstat,
              rule="rules with 1-3 text strings (1..24 bytes over all byte values, every legal modifier combination, xor ranges) x buffers with "
                   "planted variants (offset 0, end, overlapping, near misses, alnum / NUL neighbours, keys outside the range); compared per "
                   "(string, buffer): offsets ascending and equal to the spec's, length/key admissible; distinct = (modifier set, #matches class, "
